@@ -1,18 +1,17 @@
 #!/bin/bash
-# tools_mutant.sh <patch.diff> <prop> [tier]  — apply a patch to /repo, run one check, revert.
-# Prints the verdict lines; evidence/replays written by the mutant run are discarded.
+# tools_mutant.sh <patch.diff> <prop> [tier]  — applies a patch to a scratch worktree of /repo (outside /repo and /verif),
+# runs one check against it (VERIF_REPO), removes the worktree.  /repo itself is not touched, so checks of the
+# unchanged tree can run at the same time.  Evidence/replays written by the run go to a scratch directory.
 set -u
 patch="$1"; prop="$2"; tier="${3:-quick}"
-git -C /repo diff --quiet || { echo "repo dirty"; exit 2; }
-git -C /repo apply "$patch" || { echo "patch does not apply"; exit 2; }
-out=$(mktemp /tmp/mutant.XXXXXX)
+wt=$(mktemp -d /tmp/mutant.XXXXXX)
+git -C /repo worktree add -q --detach "$wt/repo" HEAD || exit 2
+cleanup() { git -C /repo worktree remove --force "$wt/repo" 2>/dev/null; rm -rf "$wt"; rm -rf /verif/.build/alt-$(echo "$wt/repo" | cksum | cut -d' ' -f1); }
+trap cleanup EXIT
+git -C "$wt/repo" apply "$patch" || { echo "patch does not apply"; exit 2; }
+mkdir -p "$wt/out"; cp /verif/known_findings.jsonl "$wt/out/"
 t0=$(date +%s)
-/verif/vcheck "$prop" "$tier" > "$out" 2>&1; rc=$?
-git -C /repo checkout -- . ; git -C /repo clean -fdq
-grep -E "^(VIOLATION|KNOWN-FINDING|HARNESS-ERROR|  signature|C[0-9]+ )" "$out" | cut -c1-400 | head -${MUTANT_LINES:-12}
+VERIF_REPO="$wt/repo" VERIF_OUT="$wt/out" /verif/vcheck "$prop" "$tier" > "$wt/log" 2>&1; rc=$?
+grep -E "^(VIOLATION|KNOWN-FINDING|HARNESS-ERROR|  signature|C[0-9]+ )" "$wt/log" | cut -c1-400 | head -${MUTANT_LINES:-12}
 echo "exit=$rc wall=$(( $(date +%s) - t0 ))s"
-rm -f "$out"
-# discard evidence / replays written by the mutant run
-git -C /verif checkout -- evidence replays 2>/dev/null
-git -C /verif clean -fdq replays evidence 2>/dev/null
 exit 0
